@@ -12,7 +12,8 @@ for d in sorted(os.listdir(root)):
         continue
     m = json.load(open(mp))
     r = res.get(d, {})
-    conf = "yes" if ": CONFIRMED" in m.get("confirmed_here", "") else "NO"
+    ch = m.get("confirmed_here", "")
+    conf = "yes" if ": CONFIRMED" in ch else ("tests + check (demo not re-run)" if ch.startswith("tests:") else "NO")
     def cell(x):
         return str(x).replace("|", "/").replace("\n", " ")
     rows.append(f"| {d} | {m.get('breaks_property')} | {cell(m.get('summary', ''))[:260]} | {cell(m.get('needs_to_manifest', ''))[:260]} | {conf} | "
